@@ -171,7 +171,7 @@ func c18Options(mask int) rapidproto.GeneratorOptions {
 
 func runC18(ctx *Ctx) {
 	types := c18Types(ctx)
-	n := ctx.N(30, 500)
+	n := ctx.N(50, 600)
 	idx := 0
 	for _, ty := range types {
 		for mask := 0; mask < 16; mask++ {
